@@ -141,17 +141,27 @@ impl<T: Repr + Send + Sync + 'static> Probe<T> {
             },
             Message::Terminate => {
                 let _f = self.world.enter(self.edge, Dir::Down, Kind::Terminate, Val::none(), -1);
+                self.release();
                 self.run_hook(2, 0);
             },
             Message::Error(e) => {
                 *self.last_err.lock().unwrap() = Some(Arc::clone(&e));
                 let id = self.world.err_id(&e);
                 let _f = self.world.enter(self.edge, Dir::Down, Kind::Error, Val::none(), id);
+                self.release();
                 self.run_hook(2, 0);
             },
             Message::Pull => {
                 let _f = self.world.enter(self.edge, Dir::Down, Kind::Pull, Val::none(), -1);
             },
+        }
+    }
+
+    /// a sink whose subscription is over forgets the talkback (unless it is one of the lenient
+    /// sinks of C15 that keep pulling afterwards)
+    fn release(&self) {
+        if !self.spec.late_pulls {
+            *self.talkback.lock().unwrap() = None;
         }
     }
 
@@ -220,12 +230,18 @@ impl<T: Repr + Send + Sync + 'static> Probe<T> {
                 }
             },
             React::Terminate => {
-                let _f = self.world.enter(self.edge, Dir::Up, Kind::Terminate, Val::none(), -1);
-                tb(Message::Terminate);
+                {
+                    let _f = self.world.enter(self.edge, Dir::Up, Kind::Terminate, Val::none(), -1);
+                    tb(Message::Terminate);
+                }
+                self.release();
             },
             React::Error => {
-                let _f = self.world.enter(self.edge, Dir::Up, Kind::Error, Val::none(), self.err_id);
-                tb(Message::Error(Arc::clone(&self.err)));
+                {
+                    let _f = self.world.enter(self.edge, Dir::Up, Kind::Error, Val::none(), self.err_id);
+                    tb(Message::Error(Arc::clone(&self.err)));
+                }
+                self.release();
             },
         }
         true
